@@ -29,5 +29,8 @@ def check(ctx, run):
     recursion.rrec(ctx, run, 'R02.9', ROOTS, {'document'}, 'recursion of the JSON parser on nesting depth', floor=1)
     textparser.r02_10(ctx, run)
     textparser.r02_12(ctx, run, rule='R02.12')
+    safety.forbidden_calls(ctx, run, 'R02.13', ROOTS, ('String::from_utf8_lossy', 'from_utf8_lossy', 'String::from_utf16_lossy', 'char::from_u32_unchecked'),
+                           'the parser', 'ill-formed input is silently repaired (U+FFFD substituted) instead of being rejected with an error',
+                           only=lambda p_: p_.startswith(('util::', 'parser::', 'jsonpath::parser::', 'keypath::')))
     return report.finish(run, level='other', explanation=EXPLANATION,
                          assumptions=["fast_float2::parse is correctly rounded; str::parse::<u64/i64> is exact or Err (trusted)", "reviewed assumption table assume.json", "A3"])
